@@ -565,7 +565,7 @@ impl Case {
             mode: f.get("mode").into(),
             k: match f.get("k") { "-" => None, s => Some(s.parse().unwrap()) },
             ls: f.opt("ls") == Some("1"),
-            data: unhex(f.get("d")),
+            data: data_field(f.get("d")),
             expect: f.opt("x").map(|s| s.to_string()),
             tok: f.opt("t").map(|s| {
                 let v: Vec<usize> = s.split(':').map(|x| x.parse().unwrap()).collect();
